@@ -128,6 +128,8 @@ func pureFuncs(ic *IC, r *Report, rule string, names []string, floor int, keySuf
 		}
 		n++
 		var bad []string
+		visited := map[*ssa.Function]bool{fn: true}
+		depth := 0
 		var visit func(f *ssa.Function)
 		visit = func(f *ssa.Function) {
 			for _, b := range f.Blocks {
@@ -173,6 +175,19 @@ func pureFuncs(ic *IC, r *Report, rule string, names []string, floor int, keySuf
 							bad = append(bad, "an update of a map that is not local at "+ic.pos(x.Pos()))
 						}
 					case *ssa.Call:
+						// a helper handed a table (a map whose elements are not booleans) is part
+						// of the function: what it stores there is remembered by the caller's caller
+						if callee := x.Call.StaticCallee(); callee != nil && callee.Pkg == f.Pkg && !visited[callee] && depth < 2 {
+							for _, a := range x.Call.Args {
+								if m, ok := a.Type().Underlying().(*types.Map); ok && !types.Identical(m.Elem(), types.Typ[types.Bool]) {
+									visited[callee] = true
+									depth++
+									visit(callee)
+									depth--
+									break
+								}
+							}
+						}
 						if callee := x.Call.StaticCallee(); callee != nil && callee.Pkg != nil && callee.Pkg.Pkg.Path() == "sync" {
 							switch callee.Name() {
 							case "Store", "LoadOrStore", "Swap", "CompareAndSwap", "Delete", "LoadAndDelete":
